@@ -24,6 +24,8 @@ EXPLANATION = (
     "after re-parameterisation nor the dynamic nesting as a full state machine beyond these invariants. Nothing of RELIC is executed.")
 
 SELFTEST_CONFIGS = ["BASE"]
+# rules that interpret the expansion of /repo's own protocol macros (see selftest.settle)
+MACRO_RULES = ("TRY-BALANCE", "REGION-DEPTH", "FINALLY-ONCE", "THROW-CODE", "FINALLY-PURE")
 
 PROTO_FIELDS = {"code", "last", "caught", "error", "number"}
 CTX_FIELD_WRITERS = {"err_get_code", "err_get_msg", "core_init"}
@@ -62,8 +64,8 @@ def rule_balance(ctx, prog, chk):
             bad_lines.setdefault(node.line(), msg)
         if g.imbalances:
             node, msg = g.imbalances[0]
-            trace = ["%s:%d %s" % (fn.rfile, n.line(), m) for n, m in g.imbalances[:8]]
-            chk.fail("TRY-BALANCE", fn, "handler-chain", msg, line=node.line(), trace=trace)
+            trace = ["%s:%d %s" % (fn.rfile, best_line(n), m) for n, m in g.imbalances[:8]]
+            chk.fail("TRY-BALANCE", fn, "handler-chain", msg, line=best_line(node), trace=trace)
         else:
             chk.ok("TRY-BALANCE", fn, "handler-chain", "%d construct(s): every pop removes exactly the handler pushed, depth 0 at every exit" % nc, line=fn.line)
         for _ in range(max(nc - 1, 0)):
@@ -89,6 +91,22 @@ def rule_balance(ctx, prog, chk):
         elif checked:
             chk.ok("REGION-DEPTH", fn, "depth", "%d statement instances agree" % checked, line=fn.line)
     return n_constructs
+
+
+def best_line(node):
+    """line of a node, looking back to the nearest predecessor that has one"""
+    seen = set()
+    work = [node]
+    while work:
+        n = work.pop(0)
+        if n.id in seen:
+            continue
+        seen.add(n.id)
+        if n.line():
+            return n.line()
+        for p, _ in n.pred:
+            work.append(p)
+    return 0
 
 
 # ---------------------------------------------------------------------- FINALLY-ONCE / FINALLY-EXIT
